@@ -426,8 +426,21 @@ fn m_gfb(t: &mut Tape, rng: &mut SimRng, out: &mut RunOut, nops: usize) {
                     17 => x.square(),
                     18 => x / y,
                     19 => x.sqrt(),
-                    20 => x.halftrace(),
-                    _ => x.invert(),
+                    20 => {
+                        // single-bit accessors (index documented as 0..=126)
+                        let k = [0usize, 1, 62, 63, 64, 65, 126][t.usize(7)].min(126);
+                        let k = if t.chance(1, 2) { k } else { t.usize(127) };
+                        let bit = t.usize(2) as u32;
+                        let mut z = x;
+                        let before = z.get_bit(k);
+                        match t.usize(2) {
+                            0 => z.set_bit(k, bit),
+                            _ => z.xor_bit(k, bit),
+                        }
+                        out.ev(format_args!("GFb127 bit {} was {} now {}", k, before, z.get_bit(k)));
+                        z
+                    }
+                    _ => if t.chance(1, 2) { x.halftrace() } else { x.invert() },
                 };
                 let tr = r.trace();
                 out.ev(format_args!("GFb127 op{} -> {} trace {}", op, hex(&r.encode()), tr));
